@@ -32,7 +32,7 @@ MsgOK ==
     /\ LayoutFault(m, F, out) = ""
     /\ LayoutFault(m, F, Output(m, SigRdataSans([F EXCEPT !.signer = LowerName(F.signer)]), ToySig)) = ""    \* AMBIG reading admitted
     /\ LayoutFault(m, F, Output(m, SigRdataSans([F EXCEPT !.signer = UpperN(F.signer)]), ToySig)) = ":rdata"
-    /\ v.ok /\ v.type = TypeSIG /\ v.alg = F.alg /\ v.exp = F.exp /\ v.inc = F.inc /\ v.signer = F.signer
+    /\ v.ok /\ v.type = TypeSIG /\ v.alg = F.alg /\ v.exp = F.exp /\ v.inc = F.inc /\ v.signer = F.signer /\ v.keytag = F.keytag
     /\ v.signed = SignedOctets(m, rs) /\ v.sig = ToySig /\ v.ar = AR(m) + 1
     /\ Accept0(v, F.signer, Now0, TRUE) /\ Accept0(v, UpperN(F.signer), Now1, TRUE)
     /\ ~Accept0(v, F.signer, Now0, FALSE)
@@ -41,6 +41,14 @@ MsgOK ==
          ~Accept0(vi, F.signer, Now0, TRUE) /\ ~Accept0(vi, F.signer, Now1, TRUE) /\ ~Accept0(vi, F.signer, Early, TRUE)
          /\ ~Accept0(vi, F.signer, Late, TRUE) /\ ~Accept0(vi, F.signer, <<100, 255, 255, 255 - 0>>, TRUE)
     /\ ~Accept0(v, Tail(F.signer), Now0, TRUE) /\ ~Accept0(v, << <<75, 101, 90>>, <<122>> >>, Now0, TRUE)
+    \* names are compared as domain names: U+212A KELVIN SIGN (e2 84 aa) is not a K, "{" is not "[" (0x20 apart, no letters)
+    /\ ~Accept0(v, << <<226, 132, 170, 101, 89>>, <<122>> >>, Now0, TRUE)
+    /\ ~Accept0([v EXCEPT !.signer = << <<91, 101>> >>], << <<123, 101>> >>, Now0, TRUE) /\ Accept0([v EXCEPT !.signer = << <<91, 101>> >>], << <<91, 69>> >>, Now0, TRUE)
+    \* the SIG value Verify is called on does not enter: a template that carries another window (or none) changes nothing
+    /\ \A rr \in { [inc |-> F.inc, exp |-> F.exp, keytag |-> F.keytag, signer |-> F.signer],
+                   [inc |-> Late, exp |-> Late, keytag |-> 1, signer |-> <<>>], [inc |-> Early, exp |-> Early, keytag |-> F.keytag, signer |-> F.signer] } :
+         /\ VerifyOn(rr, out, F.signer, Now0, TRUE) /\ VerifyOn(rr, out, F.signer, Now1, TRUE)
+         /\ ~VerifyOn(rr, out, F.signer, Early, TRUE) /\ ~VerifyOn(rr, out, F.signer, Late, TRUE) /\ ~VerifyOn(rr, out, F.signer, Now0, FALSE)
     /\ rg[1].from = 0 /\ rg[1].to + 1 = rg[2].from /\ rg[2].to + 1 = rg[3].from /\ rg[3].to = Len(out) - 1
     /\ rg[2].from = Len(m) /\ Sub(out, rg[3].from + 1, rg[3].to + 1) = rs \o ToySig
 FaultsOK ==     \* each way of getting the layout wrong is named
